@@ -22,11 +22,11 @@ pub fn entry() -> Entry {
         shard,
         replay,
         level: "exploration",
-        rule: "one database served by server::run on a loopback port; generated histories of /insert_bin posts (serialised event buffers of 1-2 tables, values incl. NULL, ints beyond 2^53, +-inf, strings) interleaved with queries through /query, /query_cols and /multi_query_cols (JSON; binary with and without xor float compression and a mantissa), including failing queries; oracle = the same query through run_query on the same handle: same column names in order, same values (JSON numbers compared exactly as i64/f64; non-finite floats are null in JSON; NULL float cells are the reserved NaN in binary float columns), a failing query yields a 4xx/5xx status and the next request is answered; non-trivial = a response carrying a NULL, non-finite, > 2^53 or mixed-type cell, or an error response followed by a success; distinct = canonical history text",
+        rule: "one database served by server::run on a loopback port; generated histories of /insert_bin posts (serialised event buffers of 1-2 tables, values incl. NULL, ints beyond 2^53, +-inf, strings) interleaved with queries through /query, /query_cols and /multi_query_cols (JSON; binary with and without xor float compression, with a mantissa, and with a mantissa plus full_precision_cols naming every other output column), including failing queries; oracle = the same query through run_query on the same handle: same column names in order, same values (JSON numbers compared exactly as i64/f64; non-finite floats are null in JSON; NULL float cells are the reserved NaN in binary float columns), a failing query yields a 4xx/5xx status and the next request is answered; non-trivial = a response carrying a NULL, non-finite, > 2^53 or mixed-type cell, or an error response followed by a success; distinct = canonical history text",
         assumptions: &["only the data endpoints are exercised (the HTML endpoints need the templates directory relative to the working directory)", "binary responses carry columns in a map, so only the set of names is compared there", "with a reduced mantissa only sign, exponent and the leading mantissa bits are compared"],
         quick_budget_s: 1200,
         thorough_budget_s: 7200,
-        required_classes: &["endpoint:query", "endpoint:query_cols", "endpoint:multi_json", "endpoint:multi_bin", "endpoint:multi_bin_xor", "endpoint:multi_bin_mantissa", "query:failing", "query:valid", "cell:null", "cell:big_int", "cell:non_finite", "status:error_then_ok", "insert"],
+        required_classes: &["endpoint:query", "endpoint:query_cols", "endpoint:multi_json", "endpoint:multi_bin", "endpoint:multi_bin_xor", "endpoint:multi_bin_mantissa", "endpoint:multi_bin_mantissa_full_precision_cols", "query:failing", "query:valid", "cell:null", "cell:big_int", "cell:non_finite", "status:error_then_ok", "insert"],
         exhaustive_claim: false,
     }
 }
@@ -67,8 +67,8 @@ fn case_strategy() -> BoxedStrategy<Case> {
     let fq: Vec<&'static str> = c11::failing_queries().into_iter().map(|x| x.0).filter(|q| !q.is_empty() && !q.contains(" t") || q.contains("FROM t")).collect();
     let step = prop_oneof![
         3 => hist::request(schema()).prop_map(Step::Insert),
-        4 => (proptest::sample::select(valid_sql()), 0u8..6).prop_map(|(q, e)| Step::Query(q.to_string(), e, false)),
-        2 => (proptest::sample::select(fq), 0u8..6).prop_map(|(q, e)| Step::Query(q.replace("FROM t", "FROM t0"), e, true)),
+        4 => (proptest::sample::select(valid_sql()), 0u8..7).prop_map(|(q, e)| Step::Query(q.to_string(), e, false)),
+        2 => (proptest::sample::select(fq), 0u8..7).prop_map(|(q, e)| Step::Query(q.replace("FROM t", "FROM t0"), e, true)),
     ];
     (hist::request(schema()), vec(step, 1..12))
         .prop_map(|(first, mut steps)| {
@@ -234,13 +234,18 @@ pub fn check(case: &Case, env: &mut CaseEnv) -> Result<(), Failure> {
                     let emb_cols: QRes = dbh.query_full(sql, false).map_err(|f| Failure::from_fault(&f, &format!("embedded {}", ctx)))?;
                     db::clear_panics();
                     env.class(if emb_rows.is_ok() { "query:valid" } else { "query:failing" });
-                    let (label, resp) = match endpoint % 6 {
+                    let full_precision: HashSet<String> = match &emb_cols {
+                        Ok(out) => out.colnames.iter().enumerate().filter(|(i, _)| i % 2 == 0).map(|(_, n)| n.clone()).collect(),
+                        Err(_) => HashSet::new(),
+                    };
+                    let (label, resp) = match endpoint % 7 {
                         0 => ("endpoint:query", rt.block_on(async { client.post(format!("{}/query", base)).json(&QueryRequest { query: sql.clone() }).send().await })),
                         1 => ("endpoint:query_cols", rt.block_on(async { client.post(format!("{}/query_cols", base)).json(&QueryRequest { query: sql.clone() }).send().await })),
                         2 => ("endpoint:multi_json", rt.block_on(async { client.post(format!("{}/multi_query_cols", base)).json(&MultiQueryRequest { queries: vec![sql.clone()], encoding_opts: None }).send().await })),
                         3 => ("endpoint:multi_bin", rt.block_on(async { client.post(format!("{}/multi_query_cols", base)).json(&MultiQueryRequest { queries: vec![sql.clone()], encoding_opts: Some(EncodingOpts { xor_float_compression: false, mantissa: None, full_precision_cols: HashSet::new() }) }).send().await })),
                         4 => ("endpoint:multi_bin_xor", rt.block_on(async { client.post(format!("{}/multi_query_cols", base)).json(&MultiQueryRequest { queries: vec![sql.clone()], encoding_opts: Some(EncodingOpts { xor_float_compression: true, mantissa: None, full_precision_cols: HashSet::new() }) }).send().await })),
-                        _ => ("endpoint:multi_bin_mantissa", rt.block_on(async { client.post(format!("{}/multi_query_cols", base)).json(&MultiQueryRequest { queries: vec![sql.clone()], encoding_opts: Some(EncodingOpts { xor_float_compression: true, mantissa: Some(20), full_precision_cols: HashSet::new() }) }).send().await })),
+                        5 => ("endpoint:multi_bin_mantissa", rt.block_on(async { client.post(format!("{}/multi_query_cols", base)).json(&MultiQueryRequest { queries: vec![sql.clone()], encoding_opts: Some(EncodingOpts { xor_float_compression: true, mantissa: Some(20), full_precision_cols: HashSet::new() }) }).send().await })),
+                        _ => ("endpoint:multi_bin_mantissa_full_precision_cols", rt.block_on(async { client.post(format!("{}/multi_query_cols", base)).json(&MultiQueryRequest { queries: vec![sql.clone()], encoding_opts: Some(EncodingOpts { xor_float_compression: true, mantissa: Some(20), full_precision_cols: full_precision.clone() }) }).send().await })),
                     };
                     env.class(label);
                     let resp = match resp {
@@ -286,7 +291,7 @@ pub fn check(case: &Case, env: &mut CaseEnv) -> Result<(), Failure> {
                                     nontrivial = true;
                                 }
                             }
-                            match endpoint % 6 {
+                            match endpoint % 7 {
                                 0 => {
                                     let v: Value = serde_json::from_slice(&bytes).map_err(|e| Failure::mismatch(format!("{}: /query body is not JSON: {}", ctx, e)).tag("body"))?;
                                     let names: Vec<String> = v["colnames"].as_array().map(|a| a.iter().map(|x| x.as_str().unwrap_or("").to_string()).collect()).unwrap_or_default();
@@ -301,7 +306,7 @@ pub fn check(case: &Case, env: &mut CaseEnv) -> Result<(), Failure> {
                                 }
                                 1 | 2 => {
                                     let v: Value = serde_json::from_slice(&bytes).map_err(|e| Failure::mismatch(format!("{}: body is not JSON: {}", ctx, e)).tag("body"))?;
-                                    let v = if endpoint % 6 == 2 { v.as_array().and_then(|a| a.first().cloned()).unwrap_or(Value::Null) } else { v };
+                                    let v = if endpoint % 7 == 2 { v.as_array().and_then(|a| a.first().cloned()).unwrap_or(Value::Null) } else { v };
                                     let names: Vec<String> = v["colnames"].as_array().map(|a| a.iter().map(|x| x.as_str().unwrap_or("").to_string()).collect()).unwrap_or_default();
                                     if names != ec.colnames {
                                         return Err(Failure::mismatch(format!("{} via {}: colnames {:?}, embedded {:?}", ctx, label, names, ec.colnames)).tag("names"));
@@ -335,8 +340,12 @@ pub fn check(case: &Case, env: &mut CaseEnv) -> Result<(), Failure> {
                                     if got_names != want_names {
                                         return Err(Failure::mismatch(format!("{} via {}: columns {:?}, embedded {:?}", ctx, label, got_names, want_names)).tag("names"));
                                     }
-                                    let mask: u64 = if e == 5 { u64::MAX - ((1u64 << (52 - 20)) - 1) } else { u64::MAX };
                                     for (name, _kind, cells) in &cols {
+                                        // e == 5: every float column keeps 20 mantissa bits; e == 6: the columns named in
+                                        // full_precision_cols are exact, the others keep 20 bits
+                                        let reduced = e == 5 || (e == 6 && !full_precision.contains(name));
+                                        let e = if reduced { 5 } else { 4 };
+                                        let mask: u64 = if reduced { u64::MAX - ((1u64 << (52 - 20)) - 1) } else { u64::MAX };
                                         // with duplicate output names the map keeps one of them: skip
                                         if cols.iter().filter(|c| &c.0 == name).count() > 1 {
                                             continue;
